@@ -143,6 +143,73 @@ theorem relay_handles_iff (cfg : RelayConfig) (c : RelayCtl) (h : relayNew cfg =
   · have : ¬ s.proto = cfg.protocolId := fun e => h1 e.symm
     simp [h1, this, bne_iff_ne]
 
+/-- The forwarding half of the controller is exactly the configured target: the parsed
+`target_peer_id` (mandatory) and the effective target protocol, which is valid. -/
+theorem relay_target (cfg : RelayConfig) (c : RelayCtl) (h : relayNew cfg = some c) :
+    parsePeerID cfg.targetPeerId = some c.targetPeerID ∧ c.targetPeerID ≠ [] ∧
+      c.targetProtocolID = cfg.targetProto ∧ protoValid cfg.targetProto = true := by
+  unfold relayNew at h
+  cases hp : parsePeerID cfg.peerId with
+  | none => simp [hp] at h
+  | some spid =>
+    cases ht : parsePeerID cfg.targetPeerId with
+    | none =>
+      simp only [hp, ht] at h
+      split at h <;> simp at h
+    | some tpid =>
+      simp only [hp, ht] at h
+      split at h
+      · simp at h
+      · split at h
+        · simp at h
+        · split at h
+          · simp at h
+          · split at h
+            · simp at h
+            · rename_i _ h2 h3 h4
+              simp only [Option.some.injEq] at h
+              subst h
+              simp only [Bool.not_eq_true, List.isEmpty_eq_false_iff] at h2
+              refine ⟨rfl, h2, rfl, ?_⟩
+              unfold RelayConfig.targetProto
+              by_cases he : cfg.targetProtocolId.isEmpty = true
+              · simp only [he, if_true]; simpa using h3
+              · simp only [he]
+                simp only [Bool.and_eq_true, Bool.not_eq_true', not_and, Bool.not_eq_false] at h4
+                simpa [he] using h4
+
+/-- What "unset" and "set" mean for `target_protocol_id`: unset = forward with the protocol the
+relay listens on; set = forward with exactly that protocol (equal to the listen protocol or not). -/
+theorem relay_targetProto_unset (cfg : RelayConfig) (h : cfg.targetProtocolId = []) :
+    cfg.targetProto = cfg.protocolId := by
+  simp [RelayConfig.targetProto, h]
+
+theorem relay_targetProto_set (cfg : RelayConfig) (h : cfg.targetProtocolId ≠ []) :
+    cfg.targetProto = cfg.targetProtocolId := by
+  simp [RelayConfig.targetProto, h]
+
+/-- Dispatched to the configured target: a stream the relay was handed (arrived on a link with
+local peer `ll` from `r`) is re-opened from that same local peer, with exactly the configured
+target peer and the effective target protocol, and the link it came on is kept up. -/
+theorem relay_opens_exact (cfg : RelayConfig) (c : RelayCtl) (h : relayNew cfg = some c) (ll r : Bytes) :
+    ∃ tp, parsePeerID cfg.targetPeerId = some tp ∧ tp ≠ [] ∧
+      c.opens ll r = ⟨(ll, r), cfg.targetProto, ll, tp⟩ := by
+  obtain ⟨h1, h2, h3, _⟩ := relay_target cfg c h
+  exact ⟨c.targetPeerID, h1, h2, by simp [RelayCtl.opens, h3]⟩
+
+/-- The target fields never influence which streams are taken: two relays that agree on
+`peer_id` and `protocol_id` take exactly the same streams, whatever their targets. -/
+theorem relay_filter_ignores_target (cfg cfg' : RelayConfig) (c c' : RelayCtl)
+    (h : relayNew cfg = some c) (h' : relayNew cfg' = some c')
+    (hp : cfg.peerId = cfg'.peerId) (hq : cfg.protocolId = cfg'.protocolId) (s : Stream) :
+    c.handles s = c'.handles s := by
+  obtain ⟨a1, _, a3, _⟩ := relay_ctor cfg c h
+  obtain ⟨b1, _, b3, _⟩ := relay_ctor cfg' c' h'
+  have : c.srcPeerID = c'.srcPeerID := by
+    rw [hp, b1] at a1; exact (Option.some.inj a1).symm
+  unfold RelayCtl.handles
+  rw [a3, b3, hq, this]
+
 /-! ### api/accept -/
 
 theorem accept_ctor (cfg : AcceptConfig) (c : AcceptCtl) (h : acceptNew cfg = some c) :
@@ -188,6 +255,12 @@ theorem accept_remote_mem (cfg : AcceptConfig) (c : AcceptCtl) (h : acceptNew cf
     id ∈ c.remotePeerIDs ↔ ∃ t ∈ cfg.remotePeerIds, Codec.idB58Decode t = some id := by
   obtain ⟨_, hr, _, _⟩ := accept_ctor cfg c h
   exact decodeAll_mem cfg.remotePeerIds c.remotePeerIDs hr id
+
+/-- `transport_id` means nothing for the filter: configs that differ only there build
+controllers that take the same streams. -/
+theorem accept_ignores_transport (cfg : AcceptConfig) (t : Nat) :
+    acceptNew { cfg with transportId := t } = acceptNew cfg ∧
+      ({ cfg with transportId := t } : AcceptConfig).validate = cfg.validate := ⟨rfl, rfl⟩
 
 /-! ### srpc server -/
 
@@ -241,6 +314,42 @@ theorem srpc_built_protocols (cfg : SrpcConfig) (c : SrpcServer) (h : srpcBuild 
       subst h
       exact parseProtocolIDs_false_spec cfg.protocolIds ps hp
 
+/-- `disable_establish_link` is not a filter: it only decides whether the incoming link is kept
+up (`backLink`); servers that differ only there take the same streams. -/
+theorem srpc_ignores_establish (c : SrpcServer) (b : Bool) (s : Stream) :
+    ({ c with disableEstablishLink := b } : SrpcServer).handles s = c.handles s := rfl
+
+theorem srpc_backLink_iff (c : SrpcServer) (ll r : Bytes) :
+    (c.backLink ll r = some (ll, r) ↔ c.disableEstablishLink = false) ∧
+      (c.backLink ll r = none ↔ c.disableEstablishLink = true) := by
+  unfold SrpcServer.backLink
+  cases c.disableEstablishLink <;> simp
+
+/-- `ApplyDefaults`: a config that names protocols keeps exactly those; only a config without
+any gets the caller's defaults. The peer filter is never touched. -/
+theorem srpc_defaults (cfg : SrpcConfig) (defs : List Bytes) :
+    (cfg.applyDefaults defs).peerIds = cfg.peerIds ∧
+      (cfg.protocolIds ≠ [] → (cfg.applyDefaults defs).protocolIds = cfg.protocolIds) ∧
+      (cfg.protocolIds = [] → (cfg.applyDefaults defs).protocolIds = defs) := by
+  unfold SrpcConfig.applyDefaults
+  cases hq : cfg.protocolIds with
+  | nil => simp
+  | cons a l => simp [hq]
+
+/-- A server built through `ApplyDefaults` serves exactly the config's own protocols when it has
+any, exactly the defaults otherwise. -/
+theorem srpc_defaults_built (cfg : SrpcConfig) (defs : List Bytes) (c : SrpcServer)
+    (h : srpcBuild (cfg.applyDefaults defs) = some c) (s : Stream) :
+    c.handles s = true → s.proto ∈ (if cfg.protocolIds = [] then defs else cfg.protocolIds) := by
+  intro hh
+  obtain ⟨hpr, _⟩ := srpc_built_protocols _ c h
+  have hm := ((srpc_handles_iff c s).mp hh).1
+  rw [hpr] at hm
+  obtain ⟨_, h2, h3⟩ := srpc_defaults cfg defs
+  by_cases he : cfg.protocolIds = []
+  · simpa [he, h3 he] using hm
+  · simpa [he, h2 he] using hm
+
 /-! ### pubsub, solicit -/
 
 theorem pubsub_handles_iff (protocolID : Bytes) (s : Stream) :
@@ -259,6 +368,15 @@ theorem solicit_handles_iff (s : Stream) :
     · have : ¬ solicitStreamPrefix <+: s.proto := fun hp => h2 (List.isPrefixOf_iff_prefix.mpr hp)
       simp [h1, h2, this]
 
+/-- The pubsub controller's peer ID is not a filter; the solicitation controller's `max_hashes`
+is not one either. -/
+theorem pubsub_args_handles_iff (a : PubsubArgs) (s : Stream) :
+    a.handles s = true ↔ s.proto = a.protocolID := pubsub_handles_iff a.protocolID s
+
+theorem solicit_config_handles_iff (c : SolicitConfig) (s : Stream) :
+    c.handles s = true ↔ s.proto = solicitControlProtocolID ∨ solicitStreamPrefix <+: s.proto :=
+  solicit_handles_iff s
+
 /-! ### non-vacuity -/
 
 /-- The hypotheses are satisfiable: a config with a real peer ID text constructs, and the
@@ -270,6 +388,6 @@ example : ∃ cfg c, echoNew cfg = some c ∧ c.handles ⟨echoDefaultProtocolID
 example : ∃ cfg : FwdConfig, cfg.validate = true ∧ (fwdNew cfg).isSome = true :=
   ⟨⟨[], [112], true, true⟩, by decide, by decide⟩
 
-example : ∃ cfg c, acceptNew cfg = some c := ⟨⟨[], [], [112]⟩, ⟨[112], [], []⟩, by decide⟩
+example : ∃ cfg c, acceptNew cfg = some c := ⟨⟨[], [], [112], 7⟩, ⟨[112], [], []⟩, by decide⟩
 
 end Bifrost.Props.C34
